@@ -403,6 +403,58 @@ Proof.
 Qed.
 End HostCaseUrl.
 
+(* ---------- user-info ---------- *)
+Section UserInfoUrl.
+Variable enc : str -> option (list N).
+Variable idna_o : str -> option str.
+Variable ipv6_o : str -> option str.
+Variable int_o : N -> str -> option Z.
+Variable unq_o : str -> str.
+
+(* two user-info texts that decode to the same user name and password (e.g. escapes of unreserved characters, hex-digit case) *)
+Definition same_login (x x' : str) : Prop :=
+  percent_decode unq_o (fst (parse_userinfo x)) = percent_decode unq_o (fst (parse_userinfo x')) /\
+  percent_decode unq_o (snd (parse_userinfo x)) = percent_decode unq_o (snd (parse_userinfo x')).
+
+Theorem parse_network_userinfo url url' scheme dport x x' H R :
+  default_port scheme = Some dport ->
+  memb 64 x = false -> memb 47 x = false -> memb 63 x = false -> memb 35 x = false ->
+  memb 64 x' = false -> memb 47 x' = false -> memb 63 x' = false -> memb 35 x' = false ->
+  memb 47 H = false -> memb 63 H = false -> memb 35 H = false ->
+  same_login x x' -> rest_ok R ->
+  match parse_network enc idna_o ipv6_o int_o unq_o url scheme dport ([47; 47] ++ (x ++ 64 :: H) ++ R),
+        parse_network enc idna_o ipv6_o int_o unq_o url' scheme dport ([47; 47] ++ (x' ++ 64 :: H) ++ R) with
+  | Ok i, Ok i' => url_of enc i = url_of enc i' /\ u_scheme i = u_scheme i' /\ u_hostname i = u_hostname i' /\
+                   u_port i = u_port i' /\ u_path i = u_path i' /\ u_query i = u_query i' /\ u_fragment i = u_fragment i' /\
+                   u_username i = u_username i' /\ u_password i = u_password i'
+  | Err k, Err k' => k = k'
+  | _, _ => False
+  end.
+Proof.
+  intros Hd x64 x47 x63 x35 x64' x47' x63' x35' h47 h63 h35 [L1 L2] HR.
+  assert (A1 : memb 47 (x ++ 64 :: H) = false /\ memb 63 (x ++ 64 :: H) = false /\ memb 35 (x ++ 64 :: H) = false)
+    by (rewrite !memb_app, x47, x63, x35; cbn [memb orb N.eqb Pos.eqb]; rewrite h47, h63, h35; auto).
+  assert (A2 : memb 47 (x' ++ 64 :: H) = false /\ memb 63 (x' ++ 64 :: H) = false /\ memb 35 (x' ++ 64 :: H) = false)
+    by (rewrite !memb_app, x47', x63', x35'; cbn [memb orb N.eqb Pos.eqb]; rewrite h47, h63, h35; auto).
+  destruct A1 as [a47 [a63 a35]]. destruct A2 as [a47' [a63' a35']].
+  unfold parse_network. rewrite !(startswith_app [47; 47]). cbn [app skipn].
+  rewrite (split_remaining_shift _ R a47 a63 a35 HR), (split_remaining_shift _ R a47' a63' a35' HR).
+  destruct (split_remaining R) as [[[[a0 resource] path] query] fragment].
+  unfold parse_authority. rewrite (partition_first 64 x H x64), (partition_first 64 x' H x64').
+  destruct (parse_host idna_o ipv6_o int_o H) as [[h port]|k]; cbn [bind]; [|reflexivity].
+  destruct (parse_userinfo x) as [un pw]. destruct (parse_userinfo x') as [un' pw']. cbn [fst snd] in L1, L2.
+  destruct (is_nil h); [reflexivity|].
+  destruct (normalize_path enc path); cbn [bind]; [|reflexivity].
+  destruct (normalize_query enc query); cbn [bind]; [|reflexivity].
+  destruct (normalize_fragment enc fragment); cbn [bind]; [|reflexivity].
+  rewrite L1, L2.
+  destruct (normalize_userpart enc username_encode_set _); cbn [bind]; [|reflexivity].
+  destruct (normalize_userpart enc password_encode_set _); cbn [bind]; [|reflexivity].
+  split; [|repeat split; reflexivity].
+  unfold url_of, is_ipv6. cbn [u_scheme u_username u_password u_host u_hostname u_port u_path u_query]. rewrite Hd. reflexivity.
+Qed.
+End UserInfoUrl.
+
 (* ---------- from the text after the scheme to the whole URL ---------- *)
 Section WholeUrl.
 Variable enc : str -> option (list N).
@@ -575,5 +627,23 @@ Proof.
   apply (parse_lift same_url sch sc dport rem rem' Hs P1 P2). intros url url'.
   destruct Hs as [_ [_ [_ [_ [_ Hd]]]]].
   exact (parse_network_ipv6 enc idna_o ipv6_o int_o unq_o url url' sc dport u x x' pp R Hd Hu I1 I2 He Hp HR).
+Qed.
+(* "sch://x@H R" and "sch://x'@H R" with user-info texts that decode to the same login *)
+Theorem parse_url_userinfo sch sc dport x x' H R :
+  scheme_text sch sc dport ->
+  memb 64 x = false -> memb 47 x = false -> memb 63 x = false -> memb 35 x = false ->
+  memb 64 x' = false -> memb 47 x' = false -> memb 63 x' = false -> memb 35 x' = false ->
+  memb 47 H = false -> memb 63 H = false -> memb 35 H = false ->
+  same_login unq_o x x' -> rest_ok R ->
+  let rem := [47; 47] ++ (x ++ 64 :: H) ++ R in
+  let rem' := [47; 47] ++ (x' ++ 64 :: H) ++ R in
+  plain_text (sch ++ 58 :: rem) -> plain_text (sch ++ 58 :: rem') ->
+  same_url (parse (sch ++ 58 :: rem)) (parse (sch ++ 58 :: rem')).
+Proof.
+  intros Hs x64 x47 x63 x35 x64' x47' x63' x35' h47 h63 h35 HL HR rem rem' P1 P2.
+  apply (parse_lift same_url sch sc dport rem rem' Hs P1 P2). intros url url'.
+  destruct Hs as [_ [_ [_ [_ [_ Hd]]]]].
+  exact (parse_network_userinfo enc idna_o ipv6_o int_o unq_o url url' sc dport x x' H R
+           Hd x64 x47 x63 x35 x64' x47' x63' x35' h47 h63 h35 HL HR).
 Qed.
 End WholeUrl.
